@@ -3,6 +3,7 @@
 #pragma once
 #include <ftp/detail/socket_base.hpp>
 #include <ftp/detail/socket.hpp>
+#include "interpose.hpp"
 #include <deque>
 #include <functional>
 #include <string>
@@ -20,6 +21,7 @@ struct mem_stream
     std::vector<std::size_t> reads;      // sizes actually returned by read_some
     std::vector<std::size_t> asked;      // sizes asked for
     int reads_at_end = 0;
+    bool log_reads = false;
     int reads_at_end_this_call = 0;       // reset by the harness before every API call
     std::function<void()> on_starved;    // called when the queue is empty (reactive server may refill)
 
@@ -44,6 +46,7 @@ struct mem_stream
         boost::asio::buffer_copy(buffers, boost::asio::buffer(c.data(), n));
         c.erase(0, n);
         reads.push_back(n);
+        if (log_reads) ilog("cr:" + std::to_string(n));
         ec = boost::system::error_code();
         return n;
     }
@@ -55,16 +58,19 @@ public:
     mem_stream in;
     std::string written;                          // all bytes written by the client
     std::function<void(const std::string &)> on_write;
+    std::function<void()> on_connect;
+    std::function<void()> on_read_line;
     bool open = false;
+    bool log_life = false;
     std::vector<std::string> life;                // life-cycle calls in order
     boost::asio::io_context *ioc = nullptr;
     boost::asio::ip::tcp::endpoint local_ep, remote_ep;
     int fail_write_at = -1; int writes = 0;
 
     void connect(const boost::asio::ip::tcp::resolver::results_type &, boost::system::error_code & ec) override
-    { open = true; life.push_back("connect"); ec = {}; }
+    { open = true; life.push_back("connect"); if (log_life) ilog("cc"); ec = {}; if (on_connect) on_connect(); }
     void connect(const boost::asio::ip::tcp::endpoint &, boost::system::error_code & ec) override
-    { open = true; life.push_back("connect"); ec = {}; }
+    { open = true; life.push_back("connect"); if (log_life) ilog("cc"); ec = {}; if (on_connect) on_connect(); }
     bool is_connected() const override { return open; }
     bool has_ssl_support() const override { return false; }
     void ssl_handshake(boost::asio::ssl::stream_base::handshake_type, boost::system::error_code &) override {}
@@ -74,6 +80,7 @@ public:
     { return write(std::string_view(buf, size), ec); }
     std::size_t write(std::string_view buf, boost::system::error_code & ec) override
     {
+        if (!open) { ec = boost::asio::error::bad_descriptor; return 0; }
         if (fail_write_at >= 0 && writes++ == fail_write_at) { ec = boost::asio::error::broken_pipe; return 0; }
         ec = {};
         written.append(buf);
@@ -83,10 +90,14 @@ public:
     std::size_t read_some(char *buf, std::size_t max_size, boost::system::error_code & ec) override
     { return in.read_some(boost::asio::buffer(buf, max_size), ec); }
     std::size_t read_line(std::string & buf, std::size_t max_size, boost::system::error_code & ec) override
-    { return socket_base::read_line(in, buf, max_size, ec); }
+    {
+        if (on_read_line) on_read_line();
+        if (!open) { ec = boost::asio::error::bad_descriptor; return 0; }
+        return socket_base::read_line(in, buf, max_size, ec);
+    }
     void shutdown(boost::asio::ip::tcp::socket::shutdown_type, boost::system::error_code & ec) override
-    { life.push_back("shutdown"); ec = {}; }
-    void close(boost::system::error_code & ec) override { life.push_back("close"); open = false; ec = {}; }
+    { life.push_back("shutdown"); if (log_life) ilog("csh"); ec = {}; }
+    void close(boost::system::error_code & ec) override { life.push_back("close"); if (log_life) ilog("cx"); open = false; ec = {}; }
     boost::asio::ip::tcp::endpoint local_endpoint(boost::system::error_code & ec) const override { ec = {}; return local_ep; }
     boost::asio::ip::tcp::endpoint remote_endpoint(boost::system::error_code & ec) const override { ec = {}; return remote_ep; }
     boost::asio::ip::tcp::socket::executor_type get_executor() override { return ioc->get_executor(); }
